@@ -18,7 +18,7 @@ from numba_scfg.core.datastructures.byte_flow import ByteFlow
 from numba_scfg.rendering.rendering import ByteFlowRenderer, SCFGRenderer
 
 from vpbt import bytecode_model as bm, dotparse, gen_graphs as gg, graph_checks as G, models as M, sweep
-from vpbt.core import Collector, library_raised
+from vpbt.core import Collector, h64, library_raised
 
 PID = "C17"
 RULE = (
@@ -209,7 +209,45 @@ def _eval_byteflow(col, label, code):
     col.case(("bf", label), code.co_code.__len__(), nt, sample=dict(function=label, renderer="ByteFlowRenderer"), classes=["byteflow"])
 
 
+def _run_multiway(spec):
+    from hypothesis import HealthCheck, Phase, given, seed as hseed, settings
+
+    _, seed, shard, examples = spec
+    col = Collector()
+
+    @hseed(h64(("c17mw", seed, shard)))
+    @settings(max_examples=examples, database=None, deadline=None, phases=[Phase.generate], suppress_health_check=list(HealthCheck))
+    @given(g=gg.multiway_graphs())
+    def t(g):
+        scfg = M.mk_scfg(g)
+        col.count("drawings")
+        try:
+            check_drawing(scfg, _render_scfg(scfg), "scfg")
+        except M.Viol as v:
+            col.fail(f"C17:mw:{v.clause}", f"[many-way flat graph] {v.msg}", dict(multiway=[[k, list(v_)] for k, v_ in g.items()]), len(g))
+        deg = max(len(v_) for v_ in g.values())
+        col.case(("mw", tuple(g.items())), len(g), deg >= 4, sample=dict(graph=gg.graph_to_str(g), max_out_degree=deg, origin="multiway"), classes=["origin:multiway"])
+
+    t()
+    return col.result()
+
+
+def _run_deep(spec):
+    """deeply nested graphs (loop in loop in loop ..., if in if in if ...) at every stage"""
+    from vpbt.checks import c02
+
+    col = Collector()
+    f, n = {"nest": (c02._big_nest, spec[1]), "comb": (c02._big_comb, spec[1])}[spec[2]]
+    intg = f(n)
+    _eval(col, intg, gg.restyle(intg, "num"), "deep")
+    return col.result()
+
+
 def run(spec):
+    if spec[0] == "multiway":
+        return _run_multiway(spec)
+    if spec[0] == "deep":
+        return _run_deep(spec)
     if spec[0] == "byteflow":
         _, shard, nshards, limit = spec
         col = Collector()
@@ -229,8 +267,10 @@ def plan(tier, seed):
     specs = sweep.plan(tier, seed, scale=0.5 if tier == "quick" else 0.35)
     if tier == "quick":
         specs += [("byteflow", s, 16, 25) for s in range(16)]
+        specs += [("multiway", seed, s, 400) for s in range(8)] + [("deep", 40, "nest"), ("deep", 40, "comb")]
     else:
         specs += [("byteflow", s, 16, 10**9) for s in range(16)]
+        specs += [("multiway", seed, s, 3000) for s in range(8)] + [("deep", 40, "nest"), ("deep", 40, "comb"), ("deep", 120, "nest"), ("deep", 120, "comb")]
     return specs
 
 
@@ -241,6 +281,13 @@ def replay(inp):
                 col = Collector()
                 _eval_byteflow(col, label, code)
                 return [(s, f["msg"]) for s, f in col.failures.items()]
+        return []
+    if "multiway" in inp:
+        scfg = M.mk_scfg({k: tuple(v) for k, v in inp["multiway"]})
+        try:
+            check_drawing(scfg, _render_scfg(scfg), "scfg")
+        except M.Viol as v:
+            return [(f"C17:mw:{v.clause}", v.msg)]
         return []
     g = gg.graph_from_json(inp["graph"])
     scfg = _build(g, inp["stage"], inp["payload"])
